@@ -138,8 +138,10 @@ class Program:
                         self.by_span[sm.group(1)] = fn
                 continue
             keys = self.keys_for_def(name)
-            for k in keys:
-                self.by_key.setdefault(k, []).append(fn)
+            for k in dict.fromkeys(keys):
+                lst = self.by_key.setdefault(k, [])
+                if fn not in lst:
+                    lst.append(fn)
 
     def keys_for_def(self, name):
         # name like  mod::sub::<impl at F:L:C: L:C>::method   or   mod::free_fn  or mod::_::<impl ..>::m
